@@ -167,9 +167,12 @@ def list_identity_packet(ip0: int, ip1: int, ip2: int, ip3: int, state: int, v: 
 REG.add("list-identity/packet", list_identity_packet,
         pre=lambda ip0, ip1, ip2, ip3, state, v, serial, c0, c1: all(0 <= x < 256 for x in (ip0, ip1, state, c0, c1)) and ip2 == 1 and ip3 == 10 and v == 1 and serial == 0xC0FFEE,
         timeout=900, funcs=F, weight=2, desc="ListIdentity reply as parsed by list_identity()/discover(): two IP octets, state and name characters symbolic")
-REG.add("list-identity/packet/unknown-vendor", list_identity_packet,
-        pre=lambda ip0, ip1, ip2, ip3, state, v, serial, c0, c1: (ip0, ip1, ip2, ip3) == (10, 0, 0, 9) and state == 3 and (max(IDS) < v < 65536 or v == 0 or v == 6) and serial == 0xC0FFEE and c0 == 65 and c1 == 66,
-        timeout=900, funcs=F, weight=2, desc="ListIdentity reply with a vendor id outside the table (symbolic above the table maximum, and the unassigned ids 0 and 6): 'UNKNOWN'")
+def list_identity_unknown_vendor(k: int, c0: int) -> str:
+    return list_identity_packet(10, 0, 0, 9, 3, [0, 6, max(IDS) + 1, 50000, 65535][concrete(k)], 0xC0FFEE, c0, 66)
+
+
+REG.add("list-identity/packet/unknown-vendor", list_identity_unknown_vendor, pre=lambda k, c0: 0 <= k < 5 and 0 <= c0 < 256, timeout=600, funcs=F, weight=2,
+        desc="ListIdentity reply with a vendor id outside the table (0, 6, table maximum + 1, 50000, 65535; symbolic choice) and a symbolic name character: 'UNKNOWN'")
 REG.add("list-identity/packet/ip-low-octets", list_identity_packet,
         pre=lambda ip0, ip1, ip2, ip3, state, v, serial, c0, c1: ip0 == 10 and ip1 == 0 and 0 <= ip2 < 256 and 0 <= ip3 < 256 and state == 3 and c0 == 65 and c1 == 66 and v == 1 and 0 <= serial < 2**32,
         timeout=900, funcs=F, weight=2, desc="ListIdentity reply: the two low IP octets and the serial symbolic")
